@@ -5,6 +5,7 @@ import UsualProofs.C04.SubMatch
 import UsualProofs.C04.CMatchFrag
 import UsualProofs.C04.CMatchLink
 import UsualProofs.C04.CMatchLinkG
+import UsualProofs.C04.CMatchRepLink
 /-! # Property C04 — internal regex: POSIX leftmost-longest matching
 
 Level of this property: **exploration with a proved oracle**.  The theorems below are about the
@@ -228,13 +229,8 @@ parent's AND-list; the frame chain is abstracted to the continuation op list; an
 vs. the iteration of one-byte matches; structural correctness of the op compiler incl. group
 numbering.
 
-Full statement (not proved yet): the same for every tree the parser produces, i.e. also
-
-  rep (group body) m n        -- `( … )*`, `( … ){m,n}`
-
-Missing: `match_gend` re-entry into `match_group` for the next iteration, the `minok` rule and the
-zero-length pruning (`gm->count > 0 && zero-length` is cut) against "zero-length iterations can be
-dropped" (`Iter.drop`), and the no-match branch of `match_group` for `mincnt = 0`. -/
+Superseded by `cmatch_refines_llmatch` below (every parser-shaped tree) except for the subject
+length bound, which is `2^31 - 1` here and `MAX_COUNT = 32767` there. -/
 theorem cmatch_refines_llmatch_partial (r : Re) (hr : CM.fragG 2 r = true) (e : Env)
     (hsz : e.s.size < 0x7FFFFFFF) (nosub : Bool) (nmatch budget fuel : Nat) :
     ∃ alts, CM.compileOps r = some (alts, r.groups) ∧
@@ -259,6 +255,93 @@ example :
           (CM.cExec alts n false e 4 5000 1000).pm = [(0, 4), (0, 2), (2, 3), (3, 4)])
       | none => false) = true := by
   refine ⟨by decide, by decide, by decide +kernel⟩
+
+/-- **The matcher model explores exactly its declared search space — for EVERY compiled
+pattern, repeated groups included.**  `CM.Sem e ops k p j` is the declarative (nondeterministic)
+reading of `do_match`: an AND-list in front of a continuation `k` (the open group iterations up to
+group #0) with the rules of `match_group` / `match_gend` written as inference rules — enter a group
+through one of its alternatives as iteration 0, skip it when `mincnt = 0`, at the end of an
+iteration either do one more repeat (count below `maxcnt`; after a zero-length iteration only when
+the minimum is not reached and `minok` is not yet set) or continue with the parent's AND-list (after
+a zero-length iteration, or once `minok`, or once the minimum is reached), a zero-length iteration
+with `count > 0` and the minimum reached is cut.  For every tree that compiles, unless the model
+itself ran out of fuel/steps: `usual_regexec` returns 0 iff `Sem` has a derivation from some start,
+stops at the leftmost such start, in strict mode `last_endpos` is the largest end `Sem` derives from
+there and `pmatch[0]` shows it (any `nmatch`); it returns REG_NOMATCH iff there is no derivation at
+all.  This pins the loops, the fuel/back-off logic, the frame stack and the `pmatch[0]` bookkeeping
+of the algorithm; `cmatch_refines_llmatch` adds the purely declarative equivalence
+`Sem (compile r) ↔ Matches e r`. -/
+theorem cmatch_explores_sem (r : Re) (alts : List (List CM.COp)) (nsub : Nat)
+    (hc : CM.compileOps r = some (alts, nsub)) (nosub : Bool) (e : Env) (nmatch budget fuel : Nat)
+    (hg : (CM.cExec alts nsub nosub e nmatch budget fuel).rc ≠ CM.OUT_OF_BUDGET ∧
+          (CM.cExec alts nsub nosub e nmatch budget fuel).rc ≠ CM.OUT_OF_FUEL) :
+    ((CM.cExec alts nsub nosub e nmatch budget fuel).rc = 0 ∧
+      CM.SemLL e alts (!nosub && decide (nmatch > 0)) (CM.cExec alts nsub nosub e nmatch budget fuel).start
+        (CM.cExec alts nsub nosub e nmatch budget fuel).last ∧
+      ((!nosub && decide (nmatch > 0)) = true → ∀ le, (CM.cExec alts nsub nosub e nmatch budget fuel).last = some le →
+        (CM.cExec alts nsub nosub e nmatch budget fuel).pm.head? =
+          some (((CM.cExec alts nsub nosub e nmatch budget fuel).start : Int), (le : Int)))) ∨
+    ((CM.cExec alts nsub nosub e nmatch budget fuel).rc = CM.NOMATCH ∧
+      ∀ i, i ≤ e.s.size → ∀ j, ¬ CM.AltsSem e alts i j) :=
+  CM.cExec_specR alts (CM.compR_wfg r 1 1 0 alts nsub hc).2 nsub nosub e nmatch budget fuel hg
+
+/-- **The matcher model equals the reference — on EVERY tree of the parser's shape, repeated
+groups `( … )*`, `( … ){m,n}` included** (`wfL 2 r`: exactly the domain of `parse_render_ere`, i.e.
+every tree is the parse of its rendering; the driver checks at run time that each parsed pattern is
+of this shape).  `compileOps` turns such a tree into op lists with `r.groups` groups, and for every
+subject shorter than `MAX_COUNT` (32767, so that `*` = `{0,32767}` cannot be exhausted), all flags,
+any `nmatch`, unless the model itself ran out of fuel/steps: `usual_regexec`'s return code is 0
+exactly when the reference finds a match (REG_NOMATCH otherwise), and when `pmatch` is wanted
+`pmatch[0]` is the reference's leftmost-longest match.
+
+Proof: (1) `cmatch_explores_sem` — the algorithm explores exactly the derivations of `Sem`
+(simultaneous induction on the fuel over `do_match / scan_next / match_group` entered and re-entered
+`/ OR-list loop / match_gend`, frame chain abstracted to a continuation).  (2) `CM.sem_gend`: the
+`gend` continuation unwinds (induction on `maxcnt - count`) to the iteration discipline `RepsM` over
+the body relation — one more repeat / exit, the `minok` rule, the zero-length cut.  (3) `repC_iff`
+(UsualProofs/C04/RepIter.lean): that discipline accepts `m` from `p` iff there is an iteration
+count `mn ≤ n ≤ mx` with `Iter B n p m` — soundness by reading the path off, completeness by
+dropping the empty iterations of a given iteration sequence (they change nothing), running the
+non-empty ones first and, if the minimum is still not reached, ONE empty iteration that sets
+`minok`/exits (this is where the repaired F25 logic is needed), `mincnt = 0` by the skip branch.
+(4) `CM.compR_linkS`: structural induction over the tree with an arbitrary rest of the AND-list and
+an arbitrary continuation. -/
+theorem cmatch_refines_llmatch (r : Re) (hr : wfL 2 r = true) (e : Env)
+    (hsz : e.s.size < CM.MAXC) (nosub : Bool) (nmatch budget fuel : Nat) :
+    ∃ alts, CM.compileOps r = some (alts, r.groups) ∧
+      ((CM.cExec alts r.groups nosub e nmatch budget fuel).rc ≠ CM.OUT_OF_BUDGET ∧
+       (CM.cExec alts r.groups nosub e nmatch budget fuel).rc ≠ CM.OUT_OF_FUEL →
+        (CM.cExec alts r.groups nosub e nmatch budget fuel).rc =
+          (if (llmatch e r).isSome then 0 else CM.NOMATCH) ∧
+        (nosub = false → nmatch > 0 → ∀ i j, llmatch e r = some (i, j) →
+          (CM.cExec alts r.groups nosub e nmatch budget fuel).pm.head? = some ((i : Int), (j : Int)))) :=
+  CM.cExec_eq_llmatch_full r hr e hsz nosub nmatch budget fuel
+
+/-- the F25 pattern `(a|^){2}b` and the AT&T-style `(a|ab)(c|bcd)(d|.*)`, `(a*)*`, `(a*)+b` are in
+the domain -/
+example :
+    wfL 2 (.cat (.rep (.group (.alt (.chr 97) .bol)) 2 (some 2)) (.chr 98)) = true ∧
+    wfL 2 (.rep (.group (.rep (.chr 97) 0 none)) 0 none) = true ∧
+    wfL 2 (.cat (.rep (.group (.rep (.chr 97) 0 none)) 1 none) (.chr 98)) = true := by
+  decide
+
+/-- the iteration discipline of `match_gend`, on its own: for a monotone, bounded body relation
+`B` and `mn ≤ mx`, the positions reachable through enter / one-more-repeat / exit with the `minok`
+rule and the zero-length cut (`RepC`) are exactly the ends of `mn … mx` iterations of `B`
+(`unb`: the upper bound is "infinity", encoded as a count larger than the subject) -/
+theorem match_gend_discipline (B : Nat → Nat → Prop) (N mn mx p m : Nat) (hmono : ∀ a b, B a b → a ≤ b)
+    (hbound : ∀ a b, B a b → b ≤ N) (hmm : mn ≤ mx) (hp : p ≤ N) (unb : Bool) (hunb : unb = true → N < mx) :
+    RepC B mn mx p m ↔ ∃ n, mn ≤ n ∧ (unb = false → n ≤ mx) ∧ Iter B n p m :=
+  repC_iff hmono hbound hmm hp unb hunb
+
+/-- `(a|^){2}b` on "ab" (a repeated group whose second iteration is empty-then-non-empty, the F25
+case): it compiles, and the model reports `(0,2)(0,1)` -/
+example :
+    (match CM.compileOps (.cat (.rep (.group (.alt (.chr 97) .bol)) 2 (some 2)) (.chr 98)) with
+      | some (alts, n) => decide (n = 1 ∧ (CM.cExec alts n false { s := #[97, 98] } 2 5000 1000).rc = 0 ∧
+          (CM.cExec alts n false { s := #[97, 98] } 2 5000 1000).pm = [(0, 2), (0, 1)])
+      | none => false) = true := by
+  decide +kernel
 
 /-- The repaired `match_gend` (fix F25) is needed: with a minimum count, an empty iteration may
 have to be followed by a non-empty one.  `(a|^){2}` on "a" matches `[0,1)` — the unchanged C
